@@ -52,6 +52,7 @@ type Contract struct {
 	LoopMods   map[int][]string
 	Modifies   []string
 	Nullable   map[string]bool
+	Writes     []string // objects (parameters, captured variables, expressions over them) the function may write although it did not allocate them
 	SplitReturns bool // postconditions are discharged per return statement (smaller queries) instead of one conjunction per clause
 	ErrorIsValue bool // the error result is the function's product (a conversion), not a failure report
 	GuardedFree map[string]string // captured variable -> captured mutex that must be held when it is accessed
@@ -172,11 +173,12 @@ func (g *Gen) loadContractFile(path string) error {
 		case "func":
 			cur = &Contract{Pkg: pkg, Func: rest, LoopInv: map[int][]*Clause{}, LoopDec: map[int]*Clause{}, LoopMods: map[int][]string{}, Absorbs: map[string]string{}, Unordered: map[string]string{}, Nullable: map[string]bool{}, GuardedFree: map[string]string{}, RangeOver: map[int]*Clause{}, CallAsserts: map[string][]*Clause{}, SafetyAt: map[string][]string{}, ModAt: map[string][]string{}, File: path, Line: ln}
 			key := pkg + "." + rest
-			if _, dup := g.contracts[key]; dup {
-				return fmt.Errorf("%s:%d: duplicate contract for %s", path, ln, key)
+			if prev, dup := g.contracts[key]; dup {
+				cur = prev // a later block for the same function adds clauses to the first
+			} else {
+				g.contracts[key] = cur
+				g.contractOrder = append(g.contractOrder, key)
 			}
-			g.contracts[key] = cur
-			g.contractOrder = append(g.contractOrder, key)
 			lastClause = nil
 		case "package-wide":
 			// package-wide errors[C19] safety[C10] ... : default tags for every function of the package
@@ -204,6 +206,11 @@ func (g *Gen) loadContractFile(path string) error {
 				for _, pr := range parseProps(m[1]) {
 					g.recoverProps[pr] = true
 				}
+			}
+		case "engine-owned":
+			// engine-owned Query.singletonExecutions functions cache ... : maps/slices held in these fields or globals are allocated by the engine, never parts of a document
+			for _, f := range strings.Fields(rest) {
+				g.engineOwned[pkg+"."+f] = true
 			}
 		case "crash-root":
 			for _, f := range strings.Fields(rest) {
@@ -341,6 +348,12 @@ func (g *Gen) loadContractFile(path string) error {
 			cur.ErrorIsValue = true
 		case "split-returns":
 			cur.SplitReturns = true
+		case "writes":
+			for _, f := range strings.Split(rest, ",") {
+				if f = strings.TrimSpace(f); f != "" {
+					cur.Writes = append(cur.Writes, f)
+				}
+			}
 		case "assume-userfn":
 			cur.AssumeUserFn = true
 		case "unordered":
